@@ -6,8 +6,8 @@ import gen
 from vlib import t_vec, fq, ff, lin_bracket
 
 ID = "C11"
-LEAN_MODULES = ["NdInterp.Props.C11", "NdInterp.Props.C11Fl", "NdInterp.Props.RatTie", "NdInterp.Props.IntTie", "NdInterp.Props.FormulaTie.Lin"]
-THEOREM_FILES = [("NdInterp/Props/C11.lean", "C11_"), ("NdInterp/Props/C11Fl.lean", "C11_"), ("NdInterp/Props/IntTie.lean", "C11_"), ("NdInterp/Props/FormulaTie/Lin.lean", "FT_idx_"), ("NdInterp/Props/FormulaTie/Lin.lean", "FT_lin_calc_frac")]
+LEAN_MODULES = ["NdInterp.Props.C11", "NdInterp.Props.C11Fl", "NdInterp.Props.RatTie", "NdInterp.Props.IntTie", "NdInterp.Props.FormulaTie.Lin", "NdInterp.Props.FormulaTie.Ctl"]
+THEOREM_FILES = [("NdInterp/Props/C11.lean", "C11_"), ("NdInterp/Props/C11Fl.lean", "C11_"), ("NdInterp/Props/IntTie.lean", "C11_"), ("NdInterp/Props/FormulaTie/Lin.lean", "FT_idx_"), ("NdInterp/Props/FormulaTie/Lin.lean", "FT_lin_calc_frac"), ("NdInterp/Props/FormulaTie/Ctl.lean", "FT_ctl_")]
 RULE = ("get_lower_index at Q (exact) and f64 (index compared): axes n=2..40 (thorough ..2000) of kinds unit/uniform/geometric/"
         "clustered/log/ulps-apart/mixed-magnitude/even-grid-with-moved-interior, and i64 axes (unit/uniform/gappy/above 2^53); queries at every knot, neighbouring floats, midpoints, +-inf, +-MAX, +-0, outside; "
         "plus the constructed family: for every n<=N (quick 12, thorough 40), every guess position g and every rank r an axis on "
